@@ -9,3 +9,46 @@ TEXT["C17"] = {
     "level_text": "Every string up to length 6 (quick) / 8 (thorough) over {a,b,/,:,.} under four current packages is parsed as label and as pattern; strings inside the documented grammar must agree with an independent reference parser and matcher over a 105-label universe, every accepted string must survive print->re-parse with an identical match set. Random longer strings over a wider alphabet extend this by sampling. Exhaustive within the bound, exploration beyond it.",
     "level_note": "Trusted: the reference grammar transcribed from docs/reference/labels.md; the 105-label universe separates all match sets of interest (prefix siblings, nested packages, the name 'all').",
 }
+
+TEXT["C09"] = {
+    "engine": "harness/c09 (E-api rapid, metamorphic pairs)",
+    "technique": "property-based metamorphic testing of the cache-key function: generated state pairs related by key-preserving permutations/relocation vs. concatenation-preserving boundary shifts, under two hash algorithms",
+    "design_ref": "DESIGN.md §4 C09",
+    "level_text": "Generated pairs of target states are hashed with the real hashing package over real files: must-equal relations (order, location, mtime, format, overlapping globs, workers) and must-differ relations (every single-component edit and a boundary shift for every adjacent component pair, including header-mimicking content) are checked under xxh3 and sha256; a second part checks the dependant key through 0-3 aliases, a third the key of packages loaded from permuted BUILD renderings. Sampling, not proof of injectivity.",
+    "level_note": "Trusted: the abstract-state function in the harness (what 'equal state' means); collisions under only one algorithm are counted, not failed.",
+}
+TEXT["C06"] = {
+    "engine": "harness/c06 (E-api rapid, round trip)",
+    "technique": "property-based round-trip testing of output caching/restoring through the real output registry over generated trees and generated prior destination states",
+    "design_ref": "DESIGN.md §4 C06",
+    "level_text": "Generated file and directory outputs (exec bits, symlinks incl. dangling/escaping, empty dirs, duplicate contents, odd names) are cached with Registry.WriteOutputs, the destination is put into one of 13 prior states, Registry.LoadOutputs must succeed and reproduce the recursive listing exactly.",
+    "level_note": "Trusted: the listing function (type, exec bit, size, sha256, link target). Modes other than exec, mtimes and ownership are not compared. Real-binary restore paths are exercised by the history checks (C01/C02).",
+}
+TEXT["C12"] = {
+    "engine": "harness/c12 (E-api rapid, model-based)",
+    "technique": "model-based property testing: generated graphs and invocations against an independent reference selector (seeds + dependency closure through aliases, platform rules)",
+    "design_ref": "DESIGN.md §4 C12",
+    "level_text": "SelectTargetsForBuild is compared with a reference selector on generated graphs (aliases, tests, tags, platforms) and invocations (patterns of every documented form relative to a current package, tags/exclude-tags, build vs test, host platform, --all-platforms): selected set, counts and error/no-error, two-sided.",
+    "level_note": "Trusted: the reference selector and refmodel pattern matcher. An alias matched by a pattern whose aliased target fails the filters may or may not act as a seed (documented ambiguity): accepted outcomes are exactly closure(strict seeds + the ambiguous aliases actually selected).",
+}
+TEXT["C11"] = {
+    "engine": "harness/c11 (E-api rapid + E-enum)",
+    "technique": "model-based property testing against a reference graph validator written from the property sentence, plus exhaustive enumeration of two-target output-overlap space",
+    "design_ref": "DESIGN.md §4 C11",
+    "level_text": "Generated BUILD trees with injected defects and near-misses go through the same load/graph/constraint pipeline as `grog check`; accept/reject must equal the reference validator in both directions. All pairs of single-output targets over 3 packages x 23 output spellings x {independent, ordered, ordered via alias} are enumerated exhaustively.",
+    "level_note": "Trusted: refmodel.ValidateGraph. Rejections the property does not list are kept out of the generator. 'Executes nothing on reject' is observed through the real binary in the history checks, not here.",
+}
+TEXT["C19"] = {
+    "engine": "harness/c19 (E-api rapid over parametric families)",
+    "technique": "metamorphic scaling test on parametric graph families (ladder/dense vs chain) with deterministic work counters and CPU-time ratio",
+    "design_ref": "DESIGN.md §4 C19",
+    "level_text": "Selection, ancestor/descendant traversal (work counters) and graph building with ordered overlapping writers, critical path, failure propagation and a full walk (CPU time with a 1000x margin) are run on ladders and dense DAGs with up to 2^24 dependency paths and compared with chains of equal size.",
+    "level_note": "Nothing is proved about complexity. CPU-time threshold: > 2 s and > 50x the chain (a correct run takes milliseconds). Query commands of the binary are covered by C20 (each label once).",
+}
+TEXT["C16"] = {
+    "engine": "harness/c16 (E-api rapid: differential, determinism, mutation robustness; child processes with write-ahead cases)",
+    "technique": "differential property testing across BUILD formats, repeated-load determinism under shuffled directory order and worker counts, and mutation-based robustness fuzzing of every loader",
+    "design_ref": "DESIGN.md §4 C16",
+    "level_text": "One abstract package is rendered to JSON, YAML, Starlark (plain and through a macro library with relative loads) and Makefile annotations and must load identically; multi-file packages must load identically 12 times under shuffled creation order and 1-16 workers without losing nodes; byte-level mutations of renderings must yield a value or an error, never a panic/fatal error/hang.",
+    "level_note": "Trusted: the renderers (YAML renderings are validated by reading them back with yaml.v3). Pkl is not exercised (needs the external pkl binary).",
+}
